@@ -56,6 +56,7 @@ PROPS = {
                 "read/write offsets moved to 0..cap, and every wrap offset of every header field for each type and version; per call the "
                 "(packet|more|err) result and ring length are compared with the model, and the delivered packets with the isolated one-shot decode of "
                 "each frame. Distinct = distinct operation lines.",
+        "client_batch": ["tcp_reading_spec"],
         "assumptions": CODEC_ASSUME + ["the ring buffer (github.com/Allenxuxu/ringbuffer v0.0.11) is a dependency: modelled after its source and compared operation by operation",
                                        "connection-level part (TCP read segmentation) is exercised by the client scenario checks, not proved"],
     },
@@ -72,7 +73,7 @@ PROPS = {
                                        "sync.Pool hands an object to one goroutine at a time (trusted); the concurrent run only samples schedules"],
     },
     "C04": {
-        "kind": "codec", "modules": ["OAP.Props.C04", "OAP.Props.C04a"], "gens": ["C04"],
+        "kind": "codec", "modules": ["OAP.Props.C04", "OAP.Props.C04a", "OAP.Props.C04b"], "gens": ["C04"],
         "rule": "malformed-input stream over every decoding entry point, both versions: valid frames with each length field set to 0 / max / actual+-1, "
                 "headers claiming 2^24-1 body bytes or 65535 metadata bytes with nothing behind, flag/type-nibble flips, random byte mutations, every "
                 "truncation point, random bytes; each through the real one-shot decoder and through the real streaming decoder whole, 1 byte at a time "
@@ -99,6 +100,83 @@ PROPS = {
                 "the property (k-th request id = k whatever the options; response/push id = the caller's); G goroutines x M calls on one context "
                 "(2x1000, 8x2000, 64x500; thorough x5): the multiset of ids must be exactly 1..G*M and increasing per goroutine.",
         "assumptions": CODEC_ASSUME + ["sync/atomic.AddUint32 is atomic (trusted); the statement-list facts of the constructors are regenerated from the source"],
+    },
+    "C05": {
+        "kind": "client", "modules": ["OAP.Props.C05"], "keys": ["do_returns_own_id", "first_wins", "err_mapping", "own_connection", "do_returns"],
+        "rule": "scenarios against scripted TCP and WebSocket peers (independent layout parser): k in {1,2,4,8,(32)} concurrent callers whose k requests "
+                "are answered in a seed-chosen permutation with unknown-id, duplicate and late responses in between; all 256 status codes x {valid "
+                "error body, garbage, empty}; stale answers across a reconnect; the C07 gate scenarios. Monitors: every Do returns the response "
+                "carrying the id the peer saw on that call's own request frame (bodies carry a caller tag), errors carry the predicted status/code/message.",
+        "partial": "socket delivery order and the Go scheduler are runtime",
+    },
+    "C07": {
+        "kind": "client", "modules": ["OAP.Props.C07"], "keys": ["no_lost_wakeup"],
+        "rule": "directed schedule through the yield point after the hand-over to the transport (gate conn.write:enqueued): 1 and 3 concurrent callers "
+                "are parked there, the peer's immediate answers are read and dispatched (resp:lookup events awaited), then the callers are released: "
+                "each must return that response; plus 8 callers x 100 immediately answered requests without gates; both transports.",
+        "partial": "'before the deadline' is wall-clock; if the caller is not scheduled before its deadline Go's select may take the deadline branch",
+    },
+    "C06": {
+        "kind": "client", "modules": ["OAP.Props.C06"], "keys": ["do_terminates", "no_panic", "timing"],
+        "rule": "fault scenarios on TCP and WebSocket: peer silent, drop, drop with authentication, server close packet / close frame, garbage, refused "
+                "dials (with and without auth), 'drop after k bytes of the response' for k = 0..12, keepalive-triggered recycling with requests in flight; "
+                "calls issued before, during and after the fault; every scenario in a subprocess under a watchdog with goroutine dump. Monitors: every "
+                "Do returned, within 2*(request+dial+auth timeout)+slack, no panic, the process exits normally.",
+        "partial": "liveness needs scheduler fairness; the real-time bound is measured with slack, not proved",
+    },
+    "C08": {
+        "kind": "client", "modules": ["OAP.Props.C08"],
+        "keys": ["uses_session_iff_unexpired", "fallback_on_unauthenticated", "after_cb_only_on_success", "hitmax_reported", "one_connection", "serves_again", "one_recovery_per_loss"],
+        "rule": "the peer plays per-attempt outcome sequences over {refuse, drop before answer, unauthenticated, other status, silence, ok} after a loss, "
+                "with expired / unexpired session, with / without token getter, MaxReconnect in {0,1,2,3}; observed: first request kind and session/"
+                "token on every connection, callbacks, open connections, later requests; loss causes EOF, close packet, garbage, refused dials (C06's "
+                "fault scenarios also run here). Compared with the decision logic's prediction.",
+        "partial": "loss detection by the OS and wall-clock back-off are runtime",
+    },
+    "C12": {
+        "kind": "client", "modules": ["OAP.Props.C12"],
+        "keys": ["handshake_first", "stream_shape", "exactly_once_in_order", "enqueue_nonblocking", "ws_url_announces_version", "ws_one_message_per_frame", "timing"],
+        "rule": "1-48 concurrent writers, frame sizes 1 B .. 2.5 MB, write-queue sizes 1..64, gzip thresholds, a stalled peer; the peer's raw byte log is cut "
+                "into frames by an independent layout parser: first two bytes = handshake, whole frames only, every accepted write exactly once and in "
+                "per-writer order, 'write queue full' returned within milliseconds instead of blocking; WebSocket: version in the URL, one binary message per frame.",
+        "partial": "net.Conn.Write and gorilla/websocket are runtime",
+    },
+    "C13": {
+        "kind": "client", "modules": ["OAP.Props.C13"], "keys": ["dispatch_spec", "loss_accounting", "control_never_to_subscribers"],
+        "rule": "pushes of 4 commands with 0-3 handlers each, interleaved with control pushes and unsolicited responses, bursts of 12..300 frames in one "
+                "TCP write, slow handlers, queue overflow, across a reconnect, pushes sent the moment the connection is accepted; the handler invocation "
+                "log is compared with the routing spec applied to the frames the peer sent (minus logged drops).",
+        "partial": "socket delivery is runtime",
+    },
+    "C14": {
+        "kind": "client", "modules": ["OAP.Props.C14"], "keys": ["close_final", "on_close_once", "close_no_panic", "close_prompt", "hitmax_reported", "no_panic"],
+        "rule": "Close in every client state of the quantifier: idle, requests in flight, incoming burst (reader/dispatcher busy), right after a peer drop, "
+                "between failing reconnect attempts, right after the first failed attempt, with hit-max about to fire, the client giving up on its own, "
+                "and a writer parked by a gate between the transport's closed() check and the queue send while the connection is closed; followed by a "
+                "second Close. Monitors: no connection attempt / frame / after-reconnect callback after Close returned, exactly one close callback, no panic.",
+        "partial": "known residue: the retry goroutine may invoke the after-reconnect callback just after Close returned if descheduled between its check and the call",
+    },
+    "C15": {
+        "kind": "client", "modules": ["OAP.Props.C15"], "keys": ["heartbeat_shape", "detects_dead", "no_false_positive", "echo", "ping_callback", "timing"],
+        "rule": "timed scenarios (interval 2 units, timeout 4): peer answers always / never / stops after 3, with and without token, after a recovery slower "
+                "than the keepalive timeout (resume path and no-auth path), TCP and WebSocket; heartbeat frames decoded with the real protobuf: fresh ids, "
+                "body id = request id; healthy peer: zero keepalive-caused reconnects over 30 intervals; dead peer: recycled and pinged again; TCP echo of "
+                "peer heartbeats.",
+        "partial": "ticker jitter: real-time bounds with slack",
+    },
+    "C16": {
+        "kind": "client", "modules": ["OAP.Props.C16"], "keys": ["client_threads_exit", "sockets_released", "bounded_live"],
+        "rule": "cycle scenarios over {dial+close, dial+peer drop+recover+close, dial+server close packet+recover+close, failed dial}: library goroutines "
+                "(goroutine profile filtered to the client package) and sockets open at the peers after 2 cycles and after 10 more must not grow; plus "
+                "the C14 scenarios' end-state checks (no library goroutine, no open socket after Close).",
+        "partial": "GC and OS socket teardown are runtime",
+    },
+    "C20": {
+        "kind": "client", "modules": ["OAP.Props.C20"], "keys": ["ws_control_mapping", "trace_equiv", "echo", "ping_callback"], "cross_transport": True,
+        "rule": "one peer script (success, error status, pushes, peer heartbeat, undecodable frame, peer-initiated close with reason, abrupt drop, requests "
+                "after each recovery) run against the real TCP peer and the real gorilla WebSocket peer; the two canonical application traces "
+                "(responses, typed errors, pushes, callbacks counts, connections used) must be equal; WebSocket heartbeat mapping checked field by field.",
+        "partial": "gorilla/websocket is modelled as a parameter",
     },
 }
 
@@ -130,7 +208,23 @@ def run_codec_prop(prop, cfg, tier, seed, replay):
     else:
         for g in cfg["gens"]:
             runs.append((g, tier, L.run_codec(prop, tier, seed, g)))
-    fails, mism = [], []
+    client_fails = []
+    if ok and cfg.get("client_batch"):
+        import client_checks
+        b = client_checks.run_batch(prop, tier, seed)
+        if "error" in b:
+            problems.append("scenario batch: " + b["error"])
+        cf, setups = client_checks.failures_of(prop, b["results"], {"keys": cfg["client_batch"]})
+        if setups:
+            b2 = client_checks.run_batch(prop, tier, seed + 17, {"OAP_PARALLEL": "4"})
+            cf2, s2 = client_checks.failures_of(prop, b2["results"], {"keys": cfg["client_batch"]})
+            cf += cf2
+            if s2:
+                problems.append("connection-level scenario could not establish its preconditions twice: " + s2[0]["detail"][:200])
+        client_fails = [{"index": -1, "key": f["key"], "detail": f["detail"], "op": f["scenario"], "code": "", "gen": "scenario", "tier": tier} for f in cf]
+        import shutil as _sh
+        _sh.rmtree(b["dir"], ignore_errors=True)
+    fails, mism = list(client_fails), []
     for g, t, r in runs:
         if "error" in r:
             problems.append(f"correspondence batch {g}: {r['error']}")
